@@ -4,6 +4,7 @@ import (
 	"bytes"
 	"context"
 	"fmt"
+	"os"
 	"os/exec"
 	"sort"
 	"strings"
@@ -260,7 +261,7 @@ func solveAll(obls []*Obligation, opts SolveOpts) {
 			timedOut = append(timedOut, o)
 		}
 	}
-	if len(timedOut) <= 3 { // more than a few is not a blip of the machine
+	if len(timedOut) <= 3 && os.Getenv("HVC_LEAN") == "" { // more than a few is not a blip of the machine
 		for _, o := range timedOut {
 			retryCalm(o, opts)
 		}
@@ -385,7 +386,7 @@ func solveOne(o *Obligation, opts SolveOpts) {
 				sat = true
 			}
 		}
-		if !sat && caseSplit(o, opts, opts.SlowT, 6) {
+		if !sat && os.Getenv("HVC_LEAN") == "" && caseSplit(o, opts, opts.SlowT, 6) {
 			return
 		}
 	}
